@@ -25,7 +25,9 @@ txt = ("# Seeded changes\n\nEach directory holds `patch.diff` (against /repo), `
        "library path from SEED_REPO) and `meta.json` (what it breaks, what it needs to manifest, what was run). Every change\n"
        "was written by a sub-agent that saw only the property text and a scratch worktree; confirmed with\n"
        "`tools/seedcheck.py` (applies in a scratch worktree: demo with / without, pinned baseline with the change; then the\n"
-       "property's quick check, seeds 0 and 1, with the patch applied to /repo and undone straight afterwards).\n\n"
+       "property's quick check, seeds 0 and 1, with the patch applied to /repo and undone straight afterwards). Of the round-5\n"
+       "changes (`Cxx-m21..m23`) the 19 that were first missed or run first were run on /repo itself (seed 0); for the other 41 the\n"
+       "check was run with the patch applied to a per-property clone of /repo at HEAD (`VERIF_REPO`), as their `meta.json` says.\n\n"
        f"{len(rows)} changes kept, {len(rows) - len(missed)} caught by their property's quick check"
        + (f"; not caught: {', '.join(missed)}" if missed else "") + ".\n\n"
        "| Seed | Change | caught | classifier(s) reported first | what had to be added to the check before it caught it |\n|---|---|---|---|---|\n"
